@@ -19,7 +19,7 @@ DEFAULT = dict(
     RogueHandshake=False, PartialFrames=False,
     Intervals=set(),
     Fire=False, Close=True, Erase=False, IdOps=False, Crash=False, Garbage=False, BadFrames=set(),
-    SendWhileDisc=False, PeerWhileDisc=False, LateFrames=False, CrossVersion=False, Restore=False,
+    SendWhileDisc=False, PeerWhileDisc=False, LateFrames=False, CrossVersion=False, Restore=False, Regulate_=False, OptFlips=set(),
     # not TLC constants:
     invariants=[],
 )
@@ -41,6 +41,10 @@ SLICES = {
                         OptSets=[set(), {"offline"}], Cleans={True, False}, SPs={True, False}, ConnSEIs={NA, 10}, SendWhileDisc=True),
     "qos_server": dict(Roles={"server"}, Vers={"v311", "v50"}, AppKinds={"publish", "pubrel"}, PeerKinds=ACKS, QosSet={1, 2},
                        MaxConns=2, Cleans={True, False}, SPs={True, False}, ConnSEIs={NA, 10}, ConnRMs={NA, 1}),
+    # options switched on and off in the middle of a session (offline publishing, automatic responses)
+    "opt_flips": dict(Vers={"v311", "v50"}, AppKinds={"publish"}, PeerKinds={"puback", "publish"}, QosSet={1}, InPids={1}, MaxConns=2,
+                      Cleans={True, False}, SPs={True, False}, ConnSEIs={NA, 10}, SendWhileDisc=True, OptFlips={"offline", "auto_pub"},
+                      MaxHeld=1, MaxUsed=1),
     # three exchanges in flight: store order survives acknowledgements out of order
     "qos_order": dict(Vers={"v311", "v50"}, AppKinds={"publish"}, PeerKinds={"puback", "pubrec"}, QosSet={1, 2}, MaxConns=2,
                       Cleans={False}, SPs={True}, ConnSEIs={10}, MaxUsed=3, MaxHeld=1, Close=True),
@@ -69,7 +73,7 @@ SLICES = {
                       ConnRMs={1}, AckMPSs={4}, MaxHeld=0),
     # topic aliases (C13)
     "alias_send": dict(Vers={"v50"}, AppKinds={"publish"}, PeerKinds={"puback"}, QosSet={0, 1}, Topics={"t1", "t2", ""},
-                       Aliases={0, 1, 2}, AckTAMs={NA, 0, 1, 2}, AckRMs={NA, 1}, MaxConns=2, Cleans={True}, MaxHeld=1, MaxUsed=2),
+                       Aliases={0, 1, 2}, AckTAMs={NA, 0, 1, 2}, AckRMs={NA, 1}, MaxConns=2, Cleans={True}, MaxHeld=1, MaxUsed=2, Regulate_=True),
     "alias_auto": dict(Vers={"v50"}, AppKinds={"publish"}, PeerKinds={"puback"}, QosSet={0, 1}, Topics={"t1", "t2"},
                        Aliases={0, 1}, AckTAMs={NA, 1, 2}, AckRMs={NA, 1}, AckMPSs={NA, 12}, OptSets=[{"auto_map"}, {"auto_replace"}],
                        MaxConns=2, Cleans={False}, ConnSEIs={10}, SPs={True, False}, MaxHeld=1, MaxUsed=1),
